@@ -18,7 +18,7 @@ use vh_common::*;
 use std::collections::BTreeMap;
 
 fn gen_contended(r: &mut Rng, long: bool) -> Vec<String> {
-    let g = GenCfg { universe: *r.pick(&[1, 2, 2, 3]), n_ops: if long { 40 + r.usize(51) } else { 12 + r.usize(16) }, malformed: 8, handover: 35 };
+    let g = GenCfg { universe: *r.pick(&[1, 2, 2, 3]), n_ops: if long { 40 + r.usize(51) } else { 12 + r.usize(16) }, malformed: 8, handover: 35, crash_creates: false };
     let mut ops = gen_case(r, &g);
     // make sure the unique indexes exist from the start (after the schema line)
     let mut head = vec![ops.remove(0)];
